@@ -6,7 +6,8 @@
 (*                                                                         *)
 (* One step = one clock cycle on the master side.                          *)
 (*   iv = <<req, adr, we, sel, data, cti, bte>>                            *)
-(*        req: 0 idle, 1 cyc & stb;  sel, data: bit masks over the L byte   *)
+(*        req: 0 idle, 1 cyc & stb, 2 cyc & ~stb (master wait state, only   *)
+(*        with c.mwait > 0);  sel, data: bit masks over the L byte          *)
 (*        lanes (a byte carries one of two values);  cti/bte as on the bus  *)
 (*   o  = <<ack, err, lane_0 .. lane_(L-1)>>                                *)
 (*        followed, for adapters whose slave side is observed (c.sside=1),  *)
@@ -16,10 +17,15 @@
 (* this module fixes, and the places that pin it down:                      *)
 (*  R1 A burst is a sequence of beats inside ONE cycle: the master keeps    *)
 (*     cyc asserted from the first beat to the acknowledge of the last one. *)
-(*     The Env master also keeps stb asserted (no master wait states inside *)
-(*     a burst - assumption, recorded in the evidence); a beat is held      *)
-(*     unchanged (adr, we, sel, dat_w, cti, bte) until it is acknowledged   *)
-(*     and the next beat is presented in the very next clock cycle.         *)
+(*     With c.mwait = 0 the Env master also keeps stb asserted; with        *)
+(*     c.mwait = n > 0 it may insert up to n consecutive wait states (cyc   *)
+(*     high, stb low) before any later beat of a burst, and open a cycle    *)
+(*     with cyc one or more clocks ahead of the first stb (B4 3.1.3: STB_O  *)
+(*     may be negated by the master between transfers of a cycle).  During  *)
+(*     a wait state sel and dat_w are 0 and adr/we/cti/bte either show the  *)
+(*     coming beat or are all 0 (both variants are explored).  A presented  *)
+(*     beat is held unchanged (adr, we, sel, dat_w, cti, bte) until it is   *)
+(*     acknowledged.                                                        *)
 (*  R2 cti: 000 classic cycle; 001 constant address burst; 010 incrementing *)
 (*     burst; 111 end of burst = the LAST beat of every burst.  A single    *)
 (*     access may carry 111 (B4 permits it; such a transfer behaves like a  *)
@@ -89,7 +95,8 @@ BeatAdr(W, kind, bte, a0, k) ==
 (* ---- the environment: a B4 registered feedback master ---- *)
 (* st 0: between cycles;  1: a beat is presented and not yet acknowledged (held as iv);   *)
 (*    2: the previous beat of a burst was acknowledged, beat k is presented now            *)
-IdleCur == [st |-> 0, a0 |-> 0, k |-> 0, kind |-> 0, bte |-> 0, we |-> 0, iv |-> <<>>]
+IdleCur == [st |-> 0, a0 |-> 0, k |-> 0, kind |-> 0, bte |-> 0, we |-> 0, iv |-> <<>>, wt |-> 0]
+MWait(c) == IF "mwait" \in DOMAIN c THEN c.mwait ELSE 0
 
 WData(c, we, sel) ==     \* bytes that are not selected carry 0 (don't-care made canonical)
   IF we = 0 THEN {0}
@@ -109,10 +116,16 @@ NextBeats(c) ==
       ctis == IF cur.k < c.maxlen - 1 THEN {cur.kind, 7} ELSE {7}               \* R2
   IN UNION { { <<1, a, cur.we, sel, x, t, cur.bte>> : t \in ctis, x \in WData(c, cur.we, sel) }
              : sel \in SelsOf(c, cur.we) }                                      \* R3
+WaitBeats(c) ==          \* master wait state before beat cur.k (k >= 1) of the burst
+  IF cur.wt >= MWait(c) THEN {}
+  ELSE { <<2, BeatAdr(c.words, cur.kind, cur.bte, cur.a0, cur.k), cur.we, 0, 0, cur.kind, cur.bte>>,
+         <<2, 0, 0, 0, 0, 0, 0>> }
+PreWaits(c) ==           \* cyc ahead of the first stb, the tags of an incrementing burst already on the bus
+  IF MWait(c) = 0 THEN {} ELSE { <<2, 0, 0, 0, 0, 2, b>> : b \in SeqSet(c.btes) }
 Inputs(c) ==
   CASE cur.st = 1 -> {cur.iv}                                                   \* R1: held until acknowledged
-    [] cur.st = 2 -> NextBeats(c)                                               \* R1: no gap inside a burst
-    [] OTHER      -> {<<0, 0, 0, 0, 0, 0, 0>>} \cup Starts(c)                   \* any gap between cycles
+    [] cur.st = 2 -> NextBeats(c) \cup WaitBeats(c)                             \* R1: no gap / bounded wait states
+    [] OTHER      -> {<<0, 0, 0, 0, 0, 0, 0>>} \cup Starts(c) \cup PreWaits(c)  \* any gap between cycles
 
 ObsInit == [okread |-> TRUE, okseq |-> TRUE, okack |-> TRUE, okerr |-> TRUE, oksl |-> TRUE,
             pending |-> FALSE, endb |-> FALSE]
@@ -162,14 +175,16 @@ CStep(c, iv, o) ==
                     IF \E l \in 0..(c.lanes - 1) : b = B(l) /\ Bit(sel, l) = 1
                     THEN Bit(dat, b - E * c.lanes - 1) ELSE mem[b]]
             ELSE mem
-  /\ cur' = IF ~req THEN IdleCur
-            ELSE IF ~ack THEN [st |-> 1, a0 |-> m.a0, k |-> m.k, kind |-> m.kind, bte |-> m.bte, we |-> m.we, iv |-> iv]
+  /\ cur' = IF iv[1] = 2 THEN (IF cur.st = 2 THEN [cur EXCEPT !.wt = @ + 1] ELSE IdleCur)
+            ELSE IF ~req THEN IdleCur
+            ELSE IF ~ack THEN [st |-> 1, a0 |-> m.a0, k |-> m.k, kind |-> m.kind, bte |-> m.bte, we |-> m.we, iv |-> iv, wt |-> cur.wt]
             ELSE IF last THEN IdleCur
-            ELSE [st |-> 2, a0 |-> m.a0, k |-> m.k + 1, kind |-> m.kind, bte |-> m.bte, we |-> m.we, iv |-> <<>>]
+            ELSE [st |-> 2, a0 |-> m.a0, k |-> m.k + 1, kind |-> m.kind, bte |-> m.bte, we |-> m.we, iv |-> <<>>, wt |-> 0]
   /\ sl' = sl2
   /\ obs' = [okread  |-> ((done /\ we = 0 /\ ~later) => rdok),
              okseq   |-> ((done /\ we = 0 /\ later) => rdok),
-             okack   |-> (ack => req),
+             okack   |-> (ack => (req \/ iv[1] = 2)),   \* a registered-feedback slave may still show the ack it predicted
+                                                     \* for the next beat while the master waits (ack is qualified by stb)
              okerr   |-> (o[2] = 0),
              oksl    |-> oksl,
              pending |-> (req /\ ~ack),
@@ -185,6 +200,8 @@ CStep(c, iv, o) ==
   /\ WitIf(req /\ ~ack /\ cur.st = 2, c, 9, "wait state on a later beat")
   /\ WitIf(c.sside = 1 /\ sl # <<>> /\ sl2 # <<>> /\ sl2 # sl, c, 10, "slave-side burst of three or more beats")
   /\ WitIf(done /\ m.kind = 2 /\ m.bte # 0 /\ m.k >= WrapLen(m.bte), c, 11, "wrap burst longer than the wrap size")
+  /\ WitIf(done /\ cur.st \in {1, 2} /\ cur.wt >= 1 /\ m.kind = 2, c, 12, "beat of an incrementing burst after a master wait state")
+  /\ WitIf(iv[1] = 2 /\ cur.st = 0, c, 13, "cyc ahead of the first stb")
 
 ReadReturnsLastWrite  == obs.okread   \* classic / single / constant / first beat: last enabled write or initial content, per byte
 BurstAddressSequence  == obs.okseq    \* beat k >= 1 of an incrementing burst returns the bytes of the word R5 defines
